@@ -16,7 +16,7 @@ OV = os.path.join(vlib.HARNESS, "overlay")
 
 
 def _kind(mode):
-    return {"none": None, "cancel": "KCancel", "race": "KCancel", "deadline": "KDeadline"}[mode]
+    return {"none": None, "cancel": "KCancel", "race": "KCancel", "pre": "KCancel", "deadline": "KDeadline"}[mode]
 
 
 class C04(Property):
@@ -68,6 +68,8 @@ class C04(Property):
             for mode in ("cancel", "deadline", "race"):
                 res.append(self._rest(s1, [[1, [5]]], mode, pos, yld=pos % 3))
         res.append(self._rest(s1, [[1, [5]]], "none", 0))
+        res.append(self._rest(s1, [[1, [5]]], "pre", 0))
+        res.append(self._rest([], [], "pre", 0))
         res.append(self._rest(s1, [[1, [5]]], "cancel", 3, req="ws"))
         res.append(self._rest(s1 + [["chk"], ["w", [203]]], [], "cancel", 3, req="sse"))
         res.append(self._rest(s1, [], "cancel", 2, dur=0))
@@ -125,6 +127,7 @@ class C04(Property):
             steps = len(script) + 1
             par = rng.choice([None, None, HOUR // 2, 2 * HOUR])
             cases.append(self._rest(script, h0, "none", 0, parent=par))
+            cases.append(self._rest(script, h0, "pre", 0, parent=par))
             for pos in range(0, steps + 1):
                 cases.append(self._rest(script, h0, "cancel", pos, parent=par))
             for pos in range(0, steps):
@@ -196,11 +199,20 @@ class C04(Property):
                 return self._slot(kind, st, bail, fin, mode, pos, dur, par, confs, method)
 
             cases.append(mk("none", 0))
+            cases.append(mk("pre", 0))
             for pos in range(0, nsteps + 1):
                 cases.append(mk("cancel", pos))
             for pos in range(0, nsteps):
                 cases.append(mk("deadline", pos))
                 cases.append(mk("race", pos))
+            if fin[0] == "ret" and fin[1] != 0:
+                # the work publishes a non-nil response while the wrapper is waking up on Done:
+                # repeated, the outcome of this race is up to the scheduler
+                for rep in range(10):
+                    c = mk("race", nsteps - 1)
+                    c["d"]["yield"] = 0
+                    c["rep"] = rep
+                    cases.append(c)
             if rng.random() < 0.3:
                 # a timeout <= 0: the derived context is born expired
                 cases.append(self._slot(kind, ["work"] * len(steps), bail, fin, "deadline", 0, rng.choice([0, -7]),
@@ -215,7 +227,7 @@ class C04(Property):
                           "inv_err": rng.choice([0, 0, 7])})
         for _ in range(n_engine):
             cases.append({"kind": "engine",
-                          "route_ns": rng.choice([0, 0, -5, HOUR // 3, HOUR]),
+                          "route_ns": rng.choice([0, 0, -5, 10**8, 10**8, HOUR // 3, HOUR]),
                           "conf_ms": rng.choice([0, 3000, 600000, 3600000]),
                           "parent_ns": rng.choice([None, HOUR // 6 + 3, 3 * HOUR])})
         return cases
